@@ -56,6 +56,9 @@ def run(ctx, prog):
     n_sites = 0
     for fn, callee, effects, unchanged_rx in SITES:
         f = ctx.body('C07.R1', fn)
+        # the "did anything change" flag is the bool the canonical call returned, whatever the local is called
+        util.bind_role(f, 'cold_deleted', type_rx=r'^bool$', assigned_from=r'HnswBackend::delete')
+        util.bind_role(f, 'existed', type_rx=r'^bool$', assigned_from=r'HnswBackend::update_metadata')
         cs = f.calls_to(callee)
         if not cs:
             ctx.missing('C07.R1', '%s: call of %s' % (fn, callee))
@@ -119,6 +122,8 @@ def run(ctx, prog):
         ctx.missing('C07.R1', 'reconcile_drained_hot_tier_documents: repair insert')
     else:
         n_sites += 1
+        # the flag = the bool local this function returns (inside its Ok value)
+        util.bind_role(rc, 'should_clear_query_cache', type_rx=r'^bool$', used_as=None, origin_rx=r'^phi\((0 \| 1|1 \| 0|0 \| 1 \| .*|.*)\)$|^(0|false)$')
         ov = flow.Origin(rc, stop_at_vars=True)
         s_e = flow.success_edges(rc, cs[0])
         fl = rc.var_local('should_clear_query_cache')
@@ -132,6 +137,7 @@ def run(ctx, prog):
                  'flag set on every path after a successful repair: %s; returned value: %s' % (not bad, ret[:140]))
         for caller in prog.callers_of('TieredEngine::reconcile_drained_hot_tier_documents'):
             cb = caller.body
+            util.bind_role(cb, 'should_clear_query_cache', type_rx=r'^bool$', assigned_from=r'TieredEngine::reconcile_drained_hot_tier_documents')
             cv = flow.Origin(cb, stop_at_vars=True)
             t_edges = []
             for i, blk in enumerate(cb.blocks):
